@@ -447,6 +447,8 @@ CORPUS = [
     {'tree': {'only': '41'}, 'ops': [['del', 'only', ''], ['ar', '', '']]},
     # a new file whose path differs from a recorded one by letter case only is a new file (case-sensitive file system)
     {'tree': {'Readme.txt': '41', 'docs/Notes.md': '42'}, 'ops': [['add', 'README.TXT', '43'], ['add', 'DOCS/notes.md', '44'], ['a', '', ''], ['add', 'readme.txt', '45'], ['a', 'readme.txt', '']]},
+    # files NAMED like the columns of the database: rows like any other
+    {'tree': {'path': '41', 'md5': '42', 'sub/path': '43', 'keep': '44'}, 'ops': [['del', 'md5', ''], ['add', 'size', '45'], ['ar', '', ''], ['a', '', ''], ['del', 'path', ''], ['ar', '', '']]},
     # missing single-file input
     {'tree': {'b': '42'}, 'ops': [['ar', 'a.txt', ''], ['a', 'zz', '']]},
     # empty tree, nested files, walk order (files before sub-directories)
